@@ -186,6 +186,8 @@ def run(ctx):
                                16, "GenScen_c04q", timeout=3000)
     cases += runner.sharded_tlc(ctx, "GenScen", CFG.format(profile="c04h", shard="@SHARD@", nshards="@NSHARDS@"),
                                 16, "GenScen_c04h", timeout=3000)
+    cases += runner.sharded_tlc(ctx, "GenScen", CFG.format(profile="c04g", shard="@SHARD@", nshards="@NSHARDS@"),
+                                16, "GenScen_c04g", timeout=3000)
     if not q:
         cases += runner.sharded_tlc(ctx, "GenScen", CFG.format(profile="c04t", shard="@SHARD@", nshards="@NSHARDS@"),
                                     16, "GenScen_c04t", timeout=3000, simulate="num=4000", depth=30, seed=ctx.seed + 7)
@@ -199,7 +201,9 @@ def run(ctx):
     ctx.cov["rule"] = (
         "GenScen profile c04q exhaustively: every assignment of {absent, defining, guarded, including-the-other} bodies "
         "to 4 header slots (same name beside the includer, in a -I dir and in a -isystem dir) x every main file of <= 2 "
-        "include/undef statements (quote and angle) + probe block x 4 orders of -I/-isystem x X defined or not; plus "
+        "include/undef statements (quote and angle) + probe block x 4 orders of -I/-isystem x X defined or not; profile "
+        "c04h (computed include whose operand comes from -DHDR, two TUs of one platform) and profile c04g (guarded / "
+        "#pragma once / plain headers included repeatedly with the guard macros undefined in between), both exhaustively; plus "
         "TLC-simulated scenarios from the rich profile (7 slots incl. a directory outside the root, 10 bodies, computed "
         "includes, -include, 2 mains, 3 TUs, 2 platforms). evaluations = well-formed scenarios replayed; non-trivial = "
         "the same header name exists in more than one directory")
